@@ -621,7 +621,7 @@ def replay_file(path):
 
 TIERS = {
     # seconds per phase inside an op job; prange job budgets
-    "quick": {"A": 55, "B": 18, "n_real": 2, "C": 40, "T": "quick", "D": False},
+    "quick": {"A": 45, "B": 15, "n_real": 2, "C": 40, "T": "quick", "D": False},
     "thorough": {"A": 900, "B": 240, "n_real": 12, "C": 600, "T": "thorough", "D": True},
 }
 
